@@ -49,8 +49,12 @@ Section AssocFacts.
     induction m as [|[k' v'] m IH]; simpl.
     - split; [intros [H|[]]; left; auto | intros [H|[]]; left; auto].
     - destruct (bytes_eqb k k') eqn:E; simpl.
-      + apply bytes_eqb_eq in E. subst k'. tauto.
-      + rewrite IH. tauto.
+      + apply bytes_eqb_eq in E. subst k'. split.
+        * intros [H|H]; [left; auto | right; right; exact H].
+        * intros [H|[H|H]]; [left; auto | left; auto | right; exact H].
+      + rewrite IH. split.
+        * intros [H|[H|H]]; [right; left; exact H | left; exact H | right; right; exact H].
+        * intros [H|[H|H]]; [right; left; exact H | left; exact H | right; right; exact H].
   Qed.
 
   Lemma akeys_adel_in m k x : In x (akeys (adel m k)) <-> x <> k /\ In x (akeys m).
